@@ -460,7 +460,6 @@ func (w *c08World) closeAll() {
 // ---------------------------------------------------------------- oracle
 
 type c08Pending struct {
-	cl     *c08Client
 	sig    string
 	detail map[string]any
 }
@@ -580,7 +579,7 @@ func (w *c08World) judge(cl *c08Client, asker int, a c08Answer) *c08Pending {
 		for k, v := range extra {
 			d[k] = v
 		}
-		return &c08Pending{cl: cl, sig: sig, detail: d}
+		return &c08Pending{sig: sig, detail: d}
 	}
 	if cl.unsure != "" {
 		w.run.Count("lookups_unjudged_current_dropped", 1)
@@ -820,7 +819,7 @@ func c08Applicable(seq []string, sym string) bool {
 func TestVerifC08Random(t *testing.T) {
 	run := vk.Start(t, "C08", "random")
 	defer run.Finish()
-	nh := run.Pick(60, 2000)
+	nh := run.Pick(60, 1000)
 	run.Rule(fmt.Sprintf("per backend %d seeded histories of 10-40 events over two clients and three nodes, registration lifetime 5 min: connect on a random node (reconnects leave the old connection to its node), heartbeat, re-login, late cleanup of the oldest/newest abandoned connection, close of the current connection (transport end / Disconnect command), tunnel-type connections; all nodes looked up for both clients after every event; distinct = backend x event-kind sequence of a history containing a reconnect or a close", nh))
 	for _, be := range c08BackendNames {
 		r := run.Rand("hist|" + be)
@@ -906,7 +905,7 @@ var c08KAVariants = []c08KAVariant{
 }
 
 // c08KAScript lays out one timed history: tick -> event ("" = heartbeat).
-func c08KAScript(r *rand.Rand, ticks int, explicit bool) map[int]string {
+func c08KAScript(r *rand.Rand, explicit bool) map[int]string {
 	s := map[int]string{}
 	nodes := []string{"A", "B", "C"}
 	cur := r.Intn(3)
@@ -927,7 +926,6 @@ func c08KAScript(r *rand.Rand, ticks int, explicit bool) map[int]string {
 	if r.Intn(4) == 0 {
 		s[9] = "re"
 	}
-	_ = ticks
 	return s
 }
 
@@ -979,7 +977,7 @@ func TestVerifC08KeepAlive(t *testing.T) {
 		for _, v := range c08KAVariants {
 			for k := 0; k < reps; k++ {
 				r := run.Rand(fmt.Sprintf("ka|%s|%s|%d", be, v.name, k))
-				jobs = append(jobs, &job{be: be, v: v, k: k, script: c08KAScript(r, ticks, !v.sweeper)})
+				jobs = append(jobs, &job{be: be, v: v, k: k, script: c08KAScript(r, !v.sweeper)})
 			}
 		}
 	}
